@@ -119,10 +119,12 @@ def audit_sources():
 def proof_obligations(prop):
     """Build the property's theorem module and audit the axioms of each theorem.
     Returns dict(obligations, discharged, failures[list of str], theorems[list])."""
-    module = prop.THEOREM_MODULE
-    names, path = theorem_names(module)
+    modules = getattr(prop, "THEOREM_MODULES", None) or [prop.THEOREM_MODULE]
+    names = []
+    for module in modules:
+        names += theorem_names(module)[0]
     res = {"obligations": len(names), "discharged": 0, "failures": [], "theorems": names}
-    rc, out = lake_build([module, "simdrv"])
+    rc, out = lake_build(modules + ["simdrv"])
     if rc != 0:
         errs = [l for l in out.split("\n") if "error" in l][:10]
         # which layer broke?
@@ -136,7 +138,8 @@ def proof_obligations(prop):
     os.makedirs(os.path.join(WORK, prop.ID), exist_ok=True)
     aud = os.path.join(WORK, prop.ID, "Audit.lean")
     with open(aud, "w") as f:
-        f.write(f"import {module}\n")
+        for module in modules:
+            f.write(f"import {module}\n")
         for n in names:
             f.write(f"#print axioms {n}\n")
     rc, out, err = sh(["lake", "env", "lean", aud], cwd=LEAN, timeout=1800)
@@ -477,7 +480,7 @@ def check_property(pid, tier, seed, replay=None):
             "obligations": pres["obligations"], "discharged": pres["discharged"],
             "theorems": pres["theorems"], "axioms_used": pres.get("axioms", []),
             "proof_failures": pres["failures"],
-            "checker_cmd": f"cd lean && lake build {prop.THEOREM_MODULE} && lake env lean ../work/{pid}/Audit.lean   # #print axioms of every theorem",
+            "checker_cmd": f"cd lean && lake build {' '.join(getattr(prop, 'THEOREM_MODULES', None) or [prop.THEOREM_MODULE])} && lake env lean ../work/{pid}/Audit.lean   # #print axioms of every theorem",
             "trusted_base": prop.TRUSTED_BASE,
             "evaluations": evals, "distinct_nontrivial": len(nontriv),
             "rule": prop.RULE, "samples": samples,
